@@ -237,6 +237,7 @@ def register(reg):
                     out.append((s2, g))
         return out
     KINDS["acm:TaskGroup"] = k_taskgroup
+    reg._k_taskgroup = k_taskgroup
 
     def k_coalesce(eng, st, pa, pb, exc, anchor):
         """exit of the coalesce_exceptions() context manager: by its own (verified) contract"""
